@@ -126,6 +126,8 @@ Section TRun.
   Lemma trun_app : forall a b st, trun st (a ++ b) = trun st a ++ trun (tstate st a) b.
   Proof. induction a as [|i t IH]; intros b st; simpl; [reflexivity|].
          destruct (step st i) as [s' o]; simpl. rewrite IH. reflexivity. Qed.
+  Lemma tstate_app : forall a b st, tstate st (a ++ b) = tstate (tstate st a) b.
+  Proof. induction a as [|i t IH]; intros b st; simpl; [reflexivity|]. apply IH. Qed.
 End TRun.
 
 (* a typed machine behind input decoding / output encoding is a packed machine *)
